@@ -259,4 +259,74 @@ theorem single_triangle_guard (w : Weights) :
   · rintro rfl; rfl
   · rintro vals rfl; rfl
 
+/-! ### 6. structure of the result -/
+
+/-- **blend_structure.** Whenever `blend` succeeds on a first triangle in canonical form (sorted,
+pairwise distinct coordinates), the result has exactly one cell per cell of the first triangle,
+in the same order, with the first triangle's period, dates and metadata (`coord`), its cell
+class and its field names — for every weight form, both methods and EVERY index vector. -/
+theorem blend_structure {t0 : List Cell} {rest : List (List Cell)} {w : Weights} {method : String}
+    {idx : Nat → String → List Nat} {out : List Cell}
+    (h : blend (t0 :: rest) w method idx = .ok out)
+    (hnd : (t0.map Cell.coord).Nodup) (hs : t0.Pairwise (fun a b => Cell.le a b)) :
+    List.Forall₂ (fun c o => o.coord = c.coord ∧ o.kind = c.kind ∧ o.values.keys = c.values.keys)
+      t0 out := by
+  unfold blend at h
+  split at h
+  · cases h
+  · rename_i m t wl hprep
+    obtain ⟨rfl, hwl⟩ := blendPrep_ok hprep
+    split at h
+    · cases h
+    · rename_i cells hloop
+      rw [List.map_cons, indexTriangle_nodup hnd] at hloop
+      have hst := blendLoop_structure hloop (by simp [hwl]) (by
+        intro p hp
+        obtain ⟨c, hc, rfl⟩ := List.mem_map.mp hp
+        exact lookup_pairs hnd hc)
+      have hst' : List.Forall₂ (fun c o => o.coord = c.coord ∧ o.kind = c.kind ∧
+          o.values.keys = c.values.keys) t cells := by
+        exact forall₂_of_map_left hst
+      have hsorted := pairwise_le_of_coords (forall₂_imp' (fun _ _ h => h.1) hst') hs
+      unfold Triangle.ofCells at h
+      split at h
+      · cases h
+        rw [List.mergeSort_of_pairwise hsorted]
+        exact hst'
+      · cases h
+
+/-- the same, by position -/
+theorem blend_structure_getElem {t0 : List Cell} {rest : List (List Cell)} {w : Weights}
+    {method : String} {idx : Nat → String → List Nat} {out : List Cell}
+    (h : blend (t0 :: rest) w method idx = .ok out)
+    (hnd : (t0.map Cell.coord).Nodup) (hs : t0.Pairwise (fun a b => Cell.le a b)) :
+    out.length = t0.length ∧ ∀ i (h0 : i < t0.length) (h1 : i < out.length),
+      out[i].coord = t0[i].coord ∧ out[i].kind = t0[i].kind ∧
+      out[i].values.keys = t0[i].values.keys := by
+  have hst := blend_structure h hnd hs
+  clear h hnd hs
+  induction hst with
+  | nil => exact ⟨rfl, fun i h0 => by simp at h0⟩
+  | cons hh _ ih =>
+    refine ⟨by simp [ih.1], ?_⟩
+    intro i h0 h1
+    cases i with
+    | zero => exact hh
+    | succ i => exact ih.2 i (by simpa using h0) (by simpa using h1)
+
+/-- a coordinate of the first triangle that is missing from some triangle's index is refused with
+`ValueError` when its turn comes -/
+theorem missing_coordinate_refused {idxs : List (List (Coord × Cell))} {k : Coord}
+    (h : ∃ d ∈ idxs, lookup d k = none) : gatherCells idxs k = .error .valueError :=
+  gatherCells_missing h
+
+-- OPEN blend_value_composed
+--   theorem blend_value_composed (h : blend (t0 :: rest) w method idx = .ok out) (canonical t0) :
+--     ∀ i f, out[i].values.get? f =
+--       blendField m (the values of f in the cells of every triangle at t0[i].coord) wl[i] (idx i f)
+--   i.e. the composition of `blend_structure` with the per-field theorems (`linear_value`,
+--   `linear_convex`, `linear_agree`, `mixture_membership`, `mixture_scalar_passthrough`), which are
+--   proved at the level of one field / one cell, and with `percell_alignment` for `wl[i]`.
+--   Checked on every implementation output by Spec.C16.linearValueOk / mixtureMembership.
+
 end Bermuda.Properties.C16
